@@ -11,10 +11,19 @@ tag=$(basename "$wt")
 cd "$wt" || exit 2
 git checkout -q -- . ; [ "$dest" = "-" ] || rm -f "$dest"
 demo=$(ls seed/$n/demo_test.go seed/$n/demo/main.go 2>/dev/null | head -1)
+# Keep the demonstrations under seed/ out of ./... (they declare the package
+# they are copied into).
+[ -f seed/go.mod ] || printf 'module seeddemos\n' > seed/go.mod
 git apply seed/$n/patch.diff || { echo "VERIFY $tag/$n: patch does not apply"; exit 1; }
 go build ./... || { echo "VERIFY $tag/$n: build fails"; git checkout -q -- .; exit 1; }
 go test -count=1 -run '^$' ./... >/dev/null 2>&1 || { echo "VERIFY $tag/$n: test compilation fails"; git checkout -q -- .; exit 1; }
-go test -json -vet=off -count=1 -timeout 25m ./... > /tmp/verify-$tag-$n.json 2>&1
+# Own network namespace: p2p::TestNetwork listens on the fixed port 9000, and
+# several verifications run at the same time.
+if unshare -n true 2>/dev/null; then
+  unshare -n sh -c 'ip link set lo up 2>/dev/null; exec go test -json -vet=off -count=1 -timeout 25m ./...' > /tmp/verify-$tag-$n.json 2>&1
+else
+  go test -json -vet=off -count=1 -timeout 25m ./... > /tmp/verify-$tag-$n.json 2>&1
+fi
 if ! python3 "$V/tools/baseline_cmp.py" /tmp/verify-$tag-$n.json > /tmp/verify-$tag-$n.cmp; then
   echo "VERIFY $tag/$n: existing suite does NOT pass with the change:"; cat /tmp/verify-$tag-$n.cmp; git checkout -q -- .; exit 1
 fi
